@@ -3,6 +3,7 @@
 package main
 
 import (
+	"errors"
 	"fmt"
 	"math/rand"
 	"runtime"
@@ -95,6 +96,7 @@ type mkMsg struct {
 	sender   int
 	phase    int
 	nilValue bool
+	badKey   bool // the key cannot be encoded: the partitioner fails for this message
 	msg      *sarama.ProducerMessage
 
 	// observed
@@ -739,9 +741,18 @@ const (
 	mkOutChecker
 	mkOutUnknownErr // an error that no expectation scripted (e.g. "no more expectations")
 	mkOutNone       // async: no event at all
+	mkOutPartErr    // the error the partitioner returned for this message (its key cannot be encoded)
 )
 
-var mkOutNames = [...]string{"success", "scripted-error", "checker-error", "unscripted-error", "none"}
+var mkOutNames = [...]string{"success", "scripted-error", "checker-error", "unscripted-error", "none", "partitioner-error"}
+
+// mkBadKey is a key the hash partitioners cannot encode: the partitioner returns errMkBadKey for the message.
+type mkBadKey struct{}
+
+var errMkBadKey = errors.New("key of this message cannot be encoded")
+
+func (mkBadKey) Encode() ([]byte, error) { return nil, errMkBadKey }
+func (mkBadKey) Length() int             { return 3 }
 
 // mkOut is what the submitter observed for one send operation.
 type mkOut struct {
@@ -769,6 +780,9 @@ type mkState struct {
 type mkWhy struct{ want, got string }
 
 func (s *mkProdSpec) classifyErr(err error) (int, []int) {
+	if err == errMkBadKey {
+		return mkOutPartErr, nil
+	}
 	switch e := err.(type) {
 	case *mkErr:
 		if e.class == "checker" {
@@ -885,6 +899,13 @@ func (s *mkProdSpec) step(st mkState, in *mkIn, out *mkOut) (bool, mkState, mkWh
 			ns.last, ns.have = o, true
 		}
 		return true
+	}
+	if !in.batch && in.op != nil && len(in.op.msgs) == 1 && in.op.msgs[0].badKey {
+		// the message takes its expectation with it and gets the partitioner's error
+		if out.class != mkOutPartErr {
+			return false, st, mkWhy{"partitioner-error", got}
+		}
+		return true, ns, mkWhy{}
 	}
 	if !in.batch {
 		e := window[0]
@@ -1240,7 +1261,7 @@ func (s *mkProdSpec) judge(r *mkRun) {
 
 	// (3) partition = the configured partitioner over the configured counts,
 	// for every message that was accepted and visibly processed.
-	rejected, accepted := 0, 0
+	rejected, accepted, partErrs := 0, 0, 0
 	for _, op := range s.ops {
 		if !op.submitted || len(op.msgs) == 0 {
 			continue
@@ -1250,6 +1271,10 @@ func (s *mkProdSpec) judge(r *mkRun) {
 			continue
 		}
 		accepted += len(op.msgs)
+		if !op.batch && op.msgs[0].badKey {
+			partErrs++
+			continue
+		}
 		switch {
 		case s.mock == "async":
 			m := op.msgs[0]
@@ -1318,6 +1343,10 @@ func (s *mkProdSpec) judge(r *mkRun) {
 	}
 	if failing > 0 {
 		want["failing-checker"] = failing
+	}
+	if partErrs > 0 {
+		// not among the deviations the statement lists; the mock reports it, which is accepted
+		want["partitioner-error"] = partErrs
 	}
 	if len(s.exps)-accepted > 0 {
 		want["leftover-at-close"] = 1
